@@ -6219,7 +6219,10 @@ impl<'a, 'graph> Builder<'a, 'graph> {
                 }
                 .into_box(),
               )
-            } else if redirect_count >= loader.max_redirects() {
+            } else if redirect_count >= loader.max_redirects()
+              // a redirect to itself never settles
+              || specifier == load_specifier
+            {
               Err(
                 ModuleErrorKind::Load {
                   specifier: load_specifier.clone(),
